@@ -12,6 +12,7 @@ import (
 // caller whose certificate name is not a configured peer gets every key-generation message refused,
 // and the message changes nothing: a generation that a real peer has prepared is still there.
 func NonPeerLeavesGenerationIntact() {
+	vsym.ForbidCrash() // a panic in an interceptor or handler kills the daemon
 	perms := map[string][]*checker.Permissions{"client1": {{Path: ".*", Operations: []string{"All"}}}}
 	start(perms)
 	account := "DW/acc"
